@@ -6,7 +6,7 @@ Three oracles on the same generated states (random integrator x option tuple x m
     x and y; leaves are classified explicitly (transient-by-design list with reasons, wall-clock, everything else must match);
  3. lock-step continuation: x and y advance k steps side by side; per-boundary state hashes and the final sabin must be identical.
 """
-import json, os, sys, random, tempfile
+import json, math, os, sys, random, tempfile
 from vf import core, layout, gen
 
 PROPERTY = "C05"
@@ -94,6 +94,31 @@ def run_case(case):
     import rebound
     from vf import rt
     spec = case['spec']
+    if case.get('kind') == 'heapfill':
+        # one half of a twin run (see main): the same script under two different fill patterns for fresh heap memory
+        x = gen.build_sim(spec)
+        N0 = x.N
+        hops = 0
+        try:
+            if case.get('hop'):
+                # ... and one twin keeps moving house: it continues on a fresh copy of itself every few steps, so that all scratch arrays are
+                # newly allocated (and carry the fill pattern wherever the library has not written to them since)
+                rh_ = random.Random(case['hop'])
+                done = 0
+                while done < case['k']:
+                    n_ = min(case['k'] - done, rh_.randint(1, case['hop']))
+                    x.steps(n_)
+                    done += n_
+                    x = x.copy()
+                    reattach(x, spec)
+                    hops += 1
+            else:
+                x.steps(case['k'])
+            x.synchronize()
+            dig = rt.digest(rt.sabin_sim(x))
+        except Exception as e:
+            dig = 'raised:%s' % type(e).__name__
+        return dict(violations=[], cell=None, counters=dict(heapfill_runs=1, heapfill_runs_N_changed=int(x.N != N0), heapfill_copies_continued_on=hops), digest=dig, N=(N0, x.N))
     with open(case['leaves']) as f:
         leaves = json.load(f)
     viol = []
@@ -318,10 +343,53 @@ def main(tier, seed):
             c = dict(c)
             c.pop('leaves', None)
             V.absorb(c, r)
+    # ---- heap-fill twin runs: a continuation can only be bit-for-bit if the trajectory does not depend on what fresh heap memory
+    # happens to contain (a restored simulation lives in different allocations).  glibc's MALLOC_PERTURB_ fills every malloc'ed /
+    # realloc'ed-grown / freed block with a byte pattern: the same script under two patterns must give the same bits.
+    rh = core.rng(PROPERTY, seed, 'heapfill')
+    hcases = []
+    for i in range(320 if tier == 'quick' else 2400):
+        modules = rh.random() < 0.8
+        spec = gen.random_module_spec(rh) if modules else gen.random_spec(rh)
+        if modules and i % 4:
+            # the hybrid integrators keep per-pair / per-particle scratch arrays that are re-laid out when a merger removes a particle mid-step
+            want_ = 'trace' if i % 4 != 3 else 'mercurius'
+            for _ in range(200):
+                if spec['integrator'] == want_ and spec['collision_resolve'] == 'merge':
+                    break
+                spec = gen.random_module_spec(rh)
+            for p_ in spec['system']['particles'][1:]:
+                p_[7] *= 1.5          # larger bodies: more mergers per run
+            if rh.random() < 0.5:
+                # two small bodies at the END of the array that meet within the first hundred steps (the merger then removes the last particle)
+                ang_ = rh.uniform(0, 6.28)
+                d_ = rh.uniform(6.0, 9.0)
+                vc_ = math.sqrt(1.0 / d_)
+                ex_, ey_ = math.cos(ang_), math.sin(ang_)
+                sep_, vr_ = rh.uniform(0.6, 1.5), rh.uniform(0.2, 0.6)
+                for sg_ in (-1, 1):
+                    spec['system']['particles'].append([1e-5, (d_ + sg_ * sep_ / 2) * ex_, (d_ + sg_ * sep_ / 2) * ey_, 0.01 * sg_,
+                                                        -ey_ * vc_ - sg_ * vr_ / 2 * ex_, ex_ * vc_ - sg_ * vr_ / 2 * ey_, 0.0, 0.15])
+        spec['savepoint'] = dict(kind='t0')
+        # (with a tree module a copy rebuilds the tree and legitimately reorders the particle array - see the known findings on tree mode -
+        #  so those twins differ in the fill pattern only)
+        has_tree_ = spec.get('gravity') == 'tree' or 'tree' in str(spec.get('collision'))
+        hcases.append(dict(kind='heapfill', spec=spec, hopmax=rh.choice([0, 1, 3, 20]) if not has_tree_ else 0, k=rh.choice([40, 120, 300]) if not (modules and i % 4) else 400))
+    twin = [core.run_cases('checks.c05_roundtrip', 'rel', [dict(c, hop=hop_ and c['hopmax']) for c in hcases], timeout_case=300, extra_env={'MALLOC_PERTURB_': pat}) for pat, hop_ in (('255', 0), ('85', 1))]
+    for c, a, b in zip(hcases, twin[0], twin[1]):
+        V.absorb(c, a)
+        V.evaluations -= 1
+        V.absorb(c, b)
+        if a and b and 'digest' in a and 'digest' in b:
+            V.count('heapfill_twin_runs_compared')
+            V.cells.add(json.dumps(['heapfill', c['spec']['integrator'], c['spec'].get('collision'), c['spec'].get('gravity'), a['N'][0] != a['N'][1]]))
+            if a['digest'] != b['digest']:
+                V.violation(('twin:run-continued-on-fresh-copies-differs-from-straight-run:%s' if c['hopmax'] else 'twin:trajectory-depends-on-fresh-heap-contents:%s') % c['spec']['integrator'],
+                            dict(case=c, detail=dict(msg='the same script gives different final bits under MALLOC_PERTURB_=255 (fresh memory zeroed) and =85 (fresh memory 0xAA) (N %r -> %r / %r)' % (a['N'][0], a['N'][1], b['N'][1]))))
     import shutil
     shutil.rmtree(td, ignore_errors=True)
     inc = []
-    for k in ('leaves_compared', 'continuation_boundaries', 'unsynchronized_savepoints', 'internal_arrays_nonempty'):
+    for k in ('leaves_compared', 'continuation_boundaries', 'unsynchronized_savepoints', 'internal_arrays_nonempty', 'heapfill_twin_runs_compared'):
         if V.counters.get(k, 0) == 0:
             inc.append('monitor counter %s is zero' % k)
     return V.finish(
